@@ -291,6 +291,7 @@ SEED_CLASSES = {
     'C01-c6': 'underscorify_non_ascii.meson',
     'C01-c7': 'array_get_lowest_negative_index.meson',
     'C01-c8': 'stringify_equal_values_other_type.meson',
+    'C01-c9': 'logical_right_operand_not_bool.reject.meson',
 }
 
 
